@@ -20,6 +20,11 @@ for p in props:
     mod = None
     if modfile.exists():
         mod = importlib.import_module('props.%s' % pid.lower())
+    claimed_list = [l.split('#')[0].strip() for l in (HERE / 'claimed.txt').read_text().splitlines()]
+    if pid not in claimed_list:
+        mod = None if mod is None else mod
+        na.append({'property_id': pid, 'reason': 'machinery for this property is still being built / validated (see DESIGN.md section 3 for the plan); nothing is claimed yet'})
+        continue
     if mod is None or not getattr(mod, 'CLAIMED', True):
         na.append({'property_id': pid,
                    'reason': getattr(mod, 'NOT_CLAIMED_REASON', 'machinery for this property is not built yet (see DESIGN.md section 3 for the plan); nothing is claimed') if mod else
